@@ -19,9 +19,7 @@ class RoleRenamer(ast.NodeTransformer):
 
 
 def rename(node, roles):
-    import copy
-
-    return RoleRenamer(roles).visit(copy.deepcopy(node))
+    return RoleRenamer(roles).visit(clone(node))
 
 
 def calls_in(node):
@@ -90,6 +88,25 @@ def single_assign_env(stmts, names=None):
     return {k: v for k, v in val.items() if cnt[k] == 1 and (names is None or k in names)}
 
 
+def clone(node):
+    """Structural copy of an AST (fields only): the `_parent` / `_file` annotations of the model are not followed, so copying a
+    sub-expression does not drag the whole module along."""
+    if isinstance(node, list):
+        return [clone(x) for x in node]
+    if not isinstance(node, ast.AST):
+        return node
+    new = type(node)()
+    for f in node._fields:
+        if hasattr(node, f):
+            setattr(new, f, clone(getattr(node, f)))
+    for a in ("lineno", "col_offset", "end_lineno", "end_col_offset"):
+        if hasattr(node, a):
+            setattr(new, a, getattr(node, a))
+    if hasattr(node, "_file"):
+        new._file = node._file
+    return new
+
+
 def own_scope(fnode):
     """Nodes of the function's own scope: nested function / lambda / class bodies are other scopes and are skipped."""
     stack = list(ast.iter_child_nodes(fnode))
@@ -133,7 +150,7 @@ def expand(fnode, expr, max_depth=8):
 
         def visit_Name(self, n):
             if isinstance(n.ctx, ast.Load) and n.id in single and n.id not in self.seen and self.depth < max_depth:
-                return Sub(self.depth + 1, self.seen | {n.id}).visit(copy.deepcopy(single[n.id]))
+                return Sub(self.depth + 1, self.seen | {n.id}).visit(clone(single[n.id]))
             return n
 
-    return Sub(0, frozenset()).visit(copy.deepcopy(expr))
+    return Sub(0, frozenset()).visit(clone(expr))
